@@ -722,7 +722,7 @@ class _CycleState:
     def store(self, body, patch, storage): self.vc.emit('store', self, body, patch, storage)
 
 
-@harness('H8', targets='kopf._core.reactor.subhandling.execute', props=['C02', 'C11', 'C06'],
+@harness('H8', targets='kopf._core.reactor.subhandling.execute', props=['C02', 'C11', 'C06', 'C03', 'C16'],
          clauses=['children_retry_iff_not_done', 'state_threaded', 'stored_before_escalation', 'subrefs_registered',
                   'implicit_once', 'registry_from_arguments', 'rejects_bad_usage', 'errors_propagate'],
          canaries=['canary.never_retries', 'canary.always_executes'],
